@@ -228,7 +228,7 @@ func runC18(c c18Case) (*vh.Violation, vh.Outcome) {
 	tQuiet := time.Since(r.start)
 	time.Sleep(100 * time.Millisecond)
 	close(wdStop)
-	starved := time.Duration(atomic.LoadInt64(&maxLate)) > 100*time.Millisecond
+	starved := time.Duration(atomic.LoadInt64(&maxLate)) > 50*time.Millisecond
 
 	r.mu.Lock()
 	events := append([]event{}, r.events...)
